@@ -622,6 +622,7 @@ def pipeline(ctx, quick):
 def run(ctx):
     quick = ctx.tier == "quick"
     ctx.prepare("C10.v")
+    ctx.rule("regenerated from the source on every run (tools/translate_extra.py -> coq/gen/Extra.v; bridged to the model by C10_polya_strategy_is_the_source): PolyAUsageStrategies and set_polya_requirement_strategy of src/dataset_processor.py")
     input_lists(ctx, quick)
     input_yaml(ctx, quick)
     combine_unit(ctx, quick)
